@@ -57,6 +57,12 @@ func harnessFiles(prop string) ([]harnessFile, error) {
 	if err != nil {
 		return nil, err
 	}
+	if prop != "_common" {
+		// shared helper packages (virtual packages under internal/) are part of every property's overlay
+		if common, err := harnessFiles("_common"); err == nil {
+			out = append(out, common...)
+		}
+	}
 	for _, d := range dirs {
 		if !d.IsDir() {
 			continue
